@@ -246,9 +246,12 @@ func report(p *Program, prop, tier string, seed int, runs []*funcRun, pin, verbo
 		pinned, pinCommit = loadPinned(prop)
 	}
 	_ = pinCommit
-	pinnedSet := map[string]bool{}
+	// Claims are per obligation GROUP (name without the return-statement text and
+	// ordinal): every current member of a pinned group must be discharged, and a
+	// pinned group must still have members.
+	pinnedGroups := map[string]bool{}
 	for _, n := range pinned {
-		pinnedSet[n] = true
+		pinnedGroups[oblGroup(n)] = true
 	}
 	type failure struct {
 		name, reason string
@@ -256,25 +259,47 @@ func report(p *Program, prop, tier string, seed int, runs []*funcRun, pin, verbo
 	}
 	var fails []failure
 	var knownLines []string
-	discharged := 0
-	for _, n := range pinned {
+	discharged, claimed := 0, 0
+	groupMembers := map[string]int{}
+	var undecidedNew []string
+	extraDischarged := 0
+	for _, n := range names {
 		o := byName[n]
-		switch {
-		case o == nil:
-			fn := n
-			if k := strings.Index(n, "/"); k > 0 {
-				fn = n[:k]
+		g := oblGroup(n)
+		if !pinnedGroups[g] {
+			if o.Result == "unsat" {
+				extraDischarged++
+			} else if kf, ok := knownOpen[n]; ok {
+				knownLines = append(knownLines, fmt.Sprintf("KNOWN-FINDING: property=%s %s: %s", prop, n, kf.What))
+			} else if kf, ok := knownOpen[g]; ok {
+				knownLines = append(knownLines, fmt.Sprintf("KNOWN-FINDING: property=%s %s: %s", prop, n, kf.What))
+			} else {
+				undecidedNew = append(undecidedNew, n+" => "+o.Result)
 			}
-			reason := "obligation no longer generated (contract does not attach: function changed shape, was renamed or removed)"
-			if e, ok := genErr[fn]; ok {
-				reason = "obligations of " + fn + " cannot be generated: " + e
-			}
-			fails = append(fails, failure{n, reason, nil})
-		case o.Result == "unsat":
+			continue
+		}
+		groupMembers[g]++
+		claimed++
+		if o.Result == "unsat" {
 			discharged++
-		default:
+		} else {
 			fails = append(fails, failure{n, "solver result: " + o.Result, o})
 		}
+	}
+	for _, g := range sortedKeys(pinnedGroups) {
+		if groupMembers[g] > 0 {
+			continue
+		}
+		fn := g
+		if k := strings.Index(g, "/"); k > 0 {
+			fn = g[:k]
+		}
+		reason := "no obligation of this group is generated any more (the contract does not attach: function changed shape, was renamed or removed)"
+		if e, ok := genErr[fn]; ok {
+			reason = "obligations of " + fn + " cannot be generated: " + e
+		}
+		claimed++
+		fails = append(fails, failure{g, reason, nil})
 	}
 	// vacuity: an unreachable return / contradictory precondition breaks the check
 	for _, v := range vacuous {
@@ -283,28 +308,10 @@ func report(p *Program, prop, tier string, seed int, runs []*funcRun, pin, verbo
 	if len(pinned) == 0 {
 		fails = append(fails, failure{prop + "/pinned-set", "no pinned obligations (vacuous check)", nil})
 	}
-	// unpinned obligations
-	var undecidedNew []string
-	extraDischarged := 0
-	for _, n := range names {
-		if pinnedSet[n] {
-			continue
-		}
-		o := byName[n]
-		if o.Result == "unsat" {
-			extraDischarged++
-			continue
-		}
-		if kf, ok := knownOpen[n]; ok {
-			knownLines = append(knownLines, fmt.Sprintf("KNOWN-FINDING: property=%s %s: %s", prop, n, kf.What))
-			continue
-		}
-		undecidedNew = append(undecidedNew, n+" => "+o.Result)
-	}
 	for fn, e := range genErr {
 		anyPinned := false
-		for _, n := range pinned {
-			if strings.HasPrefix(n, fn+"/") {
+		for g := range pinnedGroups {
+			if strings.HasPrefix(g, fn+"/") {
 				anyPinned = true
 			}
 		}
@@ -318,7 +325,11 @@ func report(p *Program, prop, tier string, seed int, runs []*funcRun, pin, verbo
 	violations := 0
 	var vioLines []string
 	for _, fl := range fails {
-		if kf, ok := knownOpen[fl.name]; ok {
+		kf, ok := knownOpen[fl.name]
+		if !ok {
+			kf, ok = knownOpen[oblGroup(fl.name)]
+		}
+		if ok {
 			knownLines = append(knownLines, fmt.Sprintf("KNOWN-FINDING: property=%s %s: %s", prop, fl.name, kf.What))
 			continue
 		}
@@ -379,7 +390,7 @@ func report(p *Program, prop, tier string, seed int, runs []*funcRun, pin, verbo
 		"seed":        seed,
 		"level":       "proof",
 		"coverage": map[string]interface{}{
-			"obligations":              len(pinned),
+			"obligations":              claimed,
 			"discharged":               discharged,
 			"checker_cmd":              fmt.Sprintf("/verif/bin/vcgo check --property %s --tier %s  (VCs from /repo working tree via go/ssa; z3-new incremental, then z3-new/cvc5 race per open obligation)", prop, tier),
 			"trusted_base":             tb,
@@ -404,7 +415,7 @@ func report(p *Program, prop, tier string, seed int, runs []*funcRun, pin, verbo
 	os.MkdirAll(filepath.Join(verifDir, "evidence"), 0o755)
 	data, _ := json.MarshalIndent(ev, "", " ")
 	os.WriteFile(filepath.Join(verifDir, "evidence", prop+".json"), data, 0o644)
-	fmt.Printf("%s: %d/%d pinned obligations discharged (%d generated, %d functions, load %.1fs, total %.1fs)\n", prop, discharged, len(pinned), len(names), len(funcs), loadS, time.Since(t0).Seconds())
+	fmt.Printf("%s: %d/%d claimed obligations discharged (%d pinned groups, %d generated, %d functions, load %.1fs, total %.1fs)\n", prop, discharged, claimed, len(pinnedGroups), len(names), len(funcs), loadS, time.Since(t0).Seconds())
 	if verbose {
 		for _, n := range names {
 			o := byName[n]
@@ -462,4 +473,23 @@ func reportLoadFailure(prop, tier string, seed int, err error, t0 time.Time) int
 type ceResult struct {
 	confirmed bool
 	report    map[string]interface{}
+}
+
+
+// oblGroup: obligation name without return-statement text and ordinal.
+func oblGroup(n string) string {
+	if k := strings.LastIndex(n, "#"); k > 0 {
+		n = n[:k]
+	}
+	// post:label@return ...  /  frame:key@return ...
+	if k := strings.Index(n, "/post:"); k >= 0 {
+		if a := strings.Index(n[k:], "@"); a >= 0 {
+			n = n[:k+a]
+		}
+	} else if k := strings.Index(n, "/frame:"); k >= 0 {
+		if a := strings.Index(n[k:], "@"); a >= 0 {
+			n = n[:k+a]
+		}
+	}
+	return n
 }
